@@ -155,7 +155,7 @@ func (x *mucRun) settle() {
 		progressed := false
 		for i, c := range x.calls {
 			if c.pos == "wait" && c.kind == "leave" && x.dtok && !(c.canc || c.errOff) {
-				if x.expect(c.a, "C06/muc-leave/call-stuck:notification-buffered", "C06/muc/handler-panic", "a Leave call in its select did not take the buffered departure notification", "ret") == "" {
+				if x.expect(c.a, "C06/muc-leave/lost-depart", "C06/muc/handler-panic", "the room's unavailable presence was handled before the Leave call reached its select and the notification was not kept for it: the call blocks until its context ends", "ret") == "" {
 					return
 				}
 				x.leftVia = "MDepartRecv"
